@@ -64,7 +64,7 @@ class GlobRef(c06.RefEd):
             except c06.Reject:
                 return False
             if zero:
-                return False
+                return True             # convention: ec_substitute takes address 0 as an empty range and succeeds
             rx = re.compile(c['pat'], re.I)
             for i in range(b, e):
                 t = self.lines[i][1]
@@ -223,6 +223,12 @@ def gen_case(rng):
     for _ in range(20):
         body = [gen_body_cmd(rng) for _ in range(rng.choice([1, 1, 1, 2, 2, 3]))]
         body = [x for x in body[:-1] if x['cmd'] != 'g'] + body[-1:]      # a nested global takes the rest of the line: only last
+        if rng.chance(1, 25):       # bodies that delete lines above and then move the current line down (tracks_low at risk)
+            body = [{'cmd': 's', 'pat': '$', 'rep': ' V'},
+                    {'cmd': 'd', 'addr': [({'base': None, 'offs': [-2]}, ','), ({'base': None, 'offs': [-1]}, None)]},
+                    {'cmd': 'p', 'addr': [({'base': rng.choice([('$',), None]), 'offs': [] if rng.chance(1, 2) else [1]}, None)]}]
+            if body[2]['addr'][0][0]['base'] is None and not body[2]['addr'][0][0]['offs']:
+                body[2]['addr'][0][0]['offs'] = [2]
         g = {'cmd': 'g', 'addr': addr, 'spell': rng.choice(['g', 'g', 'g', 'g!', 'v']), 'pat': rng.choice(PATS), 'body': body}
         case = {'file': flines, 'pre': pre, 'glob': g, 'nblocks': 0}
         if any(x['cmd'] == 'g' and has_text(x['body']) for x in body):
